@@ -394,11 +394,11 @@ def ns_whole_obs(tier, which):
                                "symbolic: minimum lengths 0..2 and an arbitrary alternative layering alt[] - the solver searches for a cheaper feasible one"))
     if "optimal" in which:
         k4 = [c for c in dag_cubes([(4, 6)]) if len({(c["ef[%d]" % i], c["et[%d]" % i]) for i in range(6)}) == 6]
-        out.append(dict(name="ns-whole-optimal-k4-weighted", pkg="internal/phase2", func="Harness_NS_Optimal", consts={"SYMW": 1}, cubes=k4[::12] if q else k4[::2],
+        out.append(dict(name="ns-whole-optimal-k4-weighted", pkg="internal/phase2", func="Harness_NS_Optimal", consts={"SYMW": 1}, cubes=k4[::12] if q else k4[::4],
                         enctimeout=240, qtimeout=90, loop=64, chunk=24, validate_cubes=0,
                         bounds="whole real execNetworkSimplex on the complete 4-node DAG (6 edges) in %s of its 720 edge orders; symbolic: minimum lengths 0..2, WEIGHTS 1..2 per edge "
                                "(a weight-2 edge stands for a pair of parallel edges; the NetworkSimplex positioner runs the same code with weights) and the alternative layering alt[]"
-                               % ("every 12th" if q else "every 2nd")))
+                               % ("every 12th" if q else "every 4th")))
     return out
 
 
